@@ -14,7 +14,8 @@ Section PartitionP.
   Variable show_float : F -> str.
   Variable parse_float : bool -> str -> option F.
   Variable show_time_iso show_time_str : T -> str.
-  Variable parse_time_np parse_time_fmt parse_time_pd : str -> option T.
+  Variable parse_time_np : bool -> str -> option T.
+  Variable parse_time_fmt parse_time_pd : str -> option T.
   Variable parse_delta : str -> option D.
   Hypothesis feqb_spec : forall a b, reflect (a = b) (feqb a b).
   Hypothesis teqb_spec : forall a b, reflect (a = b) (teqb a b).
@@ -39,6 +40,7 @@ Section PartitionP.
     | KStr, VStr _ => True
     | KFloat _, VFloat _ => True
     | KTime _, VTime _ => True
+    | KTimeTz, VTime _ => True
     | KCat, VCat _ => True
     | _, _ => False
     end.
@@ -65,7 +67,10 @@ Section PartitionP.
   Lemma roundtrip_float f hive single : parse_float single (show_float f) = Some f -> roundtrips hive (KFloat single) (VFloat f).
   Proof. intros H. unfold roundtrips. cbn. now rewrite H. Qed.
 
-  Lemma roundtrip_time t ns : parse_time_np (show_time_iso t) = Some t -> roundtrips true (KTime ns) (VTime t).
+  Lemma roundtrip_time t ns : parse_time_np false (show_time_iso t) = Some t -> roundtrips true (KTime ns) (VTime t).
+  Proof. intros H. unfold roundtrips. cbn. now rewrite H. Qed.
+
+  Lemma roundtrip_timetz t : parse_time_np true (show_time_iso t) = Some t -> roundtrips true KTimeTz (VTime t).
   Proof. intros H. unfold roundtrips. cbn. now rewrite H. Qed.
 
   (* the guessing parser on the text of an integer / boolean *)
@@ -101,7 +106,7 @@ Section PartitionP.
   (* ---------------------------------------------------------------- veqb on values of one kind *)
   Definition of_kind (k : kind) (v : value) : Prop :=
     match k, v with
-    | KInt _ _, VInt _ | KBool, VBool _ | KStr, VStr _ | KCat, VStr _ | KFloat _, VFloat _ | KTime _, VTime _ => True
+    | KInt _ _, VInt _ | KBool, VBool _ | KStr, VStr _ | KCat, VStr _ | KFloat _, VFloat _ | KTime _, VTime _ | KTimeTz, VTime _ => True
     | _, _ => False
     end.
 
@@ -112,8 +117,9 @@ Section PartitionP.
     - now intros [= <-].
     - now intros [= <-].
     - destruct (parse_float single x); [|discriminate]. cbn. now intros [= <-].
-    - destruct (parse_time_np x); [now intros [= <-]|]. destruct ns; [|discriminate].
+    - destruct (parse_time_np false x); [now intros [= <-]|]. destruct ns; [|discriminate].
       destruct (parse_time_fmt x); [|discriminate]. cbn. now intros [= <-].
+    - destruct (parse_time_np true x); [|discriminate]. cbn. now intros [= <-].
     - now intros [= <-].
   Qed.
 
@@ -125,6 +131,7 @@ Section PartitionP.
     - destruct (str_eqb_spec s s0); [now subst|discriminate].
     - destruct (feqb_spec f f0); [now subst|discriminate].
     - destruct (teqb_spec t t0); [now subst|discriminate].
+    - destruct (teqb_spec t t0); [now subst|discriminate].
     - destruct (str_eqb_spec s s0); [now subst|discriminate].
   Qed.
 
@@ -135,6 +142,7 @@ Section PartitionP.
     - now destruct b.
     - apply str_eqb_refl.
     - destruct (feqb_spec f f); congruence.
+    - destruct (teqb_spec t t); congruence.
     - destruct (teqb_spec t t); congruence.
     - apply str_eqb_refl.
   Qed.
